@@ -1,5 +1,5 @@
 """C01 — a fulfilled Promise is delivered exactly once, intact (structural clauses; see DESIGN.md 4/C01)."""
-from rules import lib_core, lib_order, lib_ready
+from rules import lib_core, lib_order, lib_ready, lib_shape
 
 CB = 'yaclib::detail::BaseCore::_callback'
 FILES = ('include/yaclib/algo/detail/', 'src/algo/', 'include/yaclib/async/promise.hpp', 'include/yaclib/async/future.hpp',
@@ -22,7 +22,11 @@ def run(ctx):
                   minimum=5)
     rt = ctx.rule('R-DTOR', 'destructor protocol of Promise / FutureBase / Detach', minimum=6)
     rcn = ctx.rule('R-CONNECT', 'Connect: registered => released, not registered => Set from the result', minimum=4)
+    rcm = ctx.rule('R-COMMIT', 'Promise::Set constructs the Result (may throw) before it gives the handle away', minimum=6)
+    rsh = ctx.rule('R-SHAPE', 'SetResultImpl runs the registered callback(s) exactly once and loses none (shape analysis, all list lengths)', minimum=2)
     for cfg, fb in sorted(fbs.items()):
+        lib_shape.check(ctx, fb, rsh, lambda qn: 'SetResultImpl' in qn, 2)
+        lib_core.check_commit(ctx, fb, rcm)
         seen = set()
         for f in sorted(fb.fn.values(), key=lambda f: f.full):
             if f.qn == 'yaclib::FutureBase::Ready':
